@@ -6,12 +6,6 @@ pub type FoldResult<T> = Result<T, FoldError>;
 macro_rules! FoldError {
     ($($content:tt)*) => { FoldError(0) };
 }
-#[verifier::external_type_specification]
-#[verifier::external_body]
-pub struct ExParseIntError(std::num::ParseIntError);
-#[verifier::external_type_specification]
-#[verifier::external_body]
-pub struct ExParseFloatError(std::num::ParseFloatError);
 // R5 (continued): the blanket `impl<T: ToString> From<T> for FoldError` becomes one opaque
 // conversion per error type that actually reaches it
 impl vstd::std_specs::convert::FromSpecImpl<std::num::ParseIntError> for FoldError { open spec fn obeys_from_spec() -> bool { false } open spec fn from_spec(v: std::num::ParseIntError) -> Self { FoldError(0) } }
@@ -20,16 +14,6 @@ impl vstd::std_specs::convert::FromSpecImpl<std::num::ParseFloatError> for FoldE
 impl From<std::num::ParseFloatError> for FoldError { fn from(value: std::num::ParseFloatError) -> Self { FoldError(0) } }
 impl vstd::std_specs::convert::FromSpecImpl<String> for FoldError { open spec fn obeys_from_spec() -> bool { false } open spec fn from_spec(v: String) -> Self { FoldError(0) } }
 impl From<String> for FoldError { fn from(value: String) -> Self { FoldError(0) } }
-
-#[verifier::external_trait_specification]
-pub trait ExFromStr: Sized {
-    type ExternalTraitSpecificationFor: std::str::FromStr;
-    type Err;
-    fn from_str(s: &str) -> Result<Self, Self::Err>;
-}
-
-pub assume_specification[ <String as PartialEq<str>>::eq ](a: &String, b: &str) -> (r: bool)
-    ensures r == (a@ == b@);
 
 /// A2 (dependency stub): nar_dev_utils::ResultBoost::transform_err is a *provided* trait method,
 /// for which Verus cannot take an assume_specification.  This local trait shadows the glob
@@ -48,13 +32,6 @@ impl<T, E> ResultBoost<T, E> for Result<T, E> {
         self.map_err(transformer)
     }
 }
-
-/// A2: `str::parse` never panics; its value is an uninterpreted function of the text
-pub uninterp spec fn parse_spec<F>(s: Seq<char>) -> Option<F>;
-pub assume_specification<F: std::str::FromStr>[ str::parse::<F> ](s: &str) -> (r: Result<F, F::Err>)
-    ensures
-        r matches Ok(v) ==> parse_spec::<F>(s@) == Some(v),
-        r is Err ==> parse_spec::<F>(s@) is None;
 
 /// core's reflexive `impl<T> From<T> for T`
 pub assume_specification<T>[ <T as From<T>>::from ](t: T) -> (r: T)
